@@ -7,8 +7,8 @@ and the frame counter, the decomposition of `detect` into these two, the geometr
 clamp, the arithmetic of `clampThresh`, and `after` over an appended event.
 Core Lean only.
 -/
-namespace TR
-namespace Det
+namespace TR.P15
+open TR TR.Det
 variable {F : FloatOps}
 
 /-! ## `pixelsChanged` does not touch the background machinery -/
@@ -163,6 +163,59 @@ theorem updateBackground_bg_keep (c : DCfg) (d : Det F) (f : Frame) (y x : Nat)
   split
   · omega
   · simp [hk]
+
+/-! ## the interior list is the interior predicate; `changed` -/
+
+theorem mem_interior_iff (c : DCfg) (y x : Nat) : (y, x) ∈ c.interior ↔ c.inI y x = true := by
+  unfold DCfg.interior DCfg.rows DCfg.cols DCfg.inI
+  simp only [List.mem_flatMap, List.mem_map, List.mem_range'_1, Prod.mk.injEq, Bool.and_eq_true,
+    decide_eq_true_eq]
+  constructor
+  · rintro ⟨y', hy, x', hx, rfl, rfl⟩
+    omega
+  · intro h
+    exact ⟨y, by omega, x, by omega, rfl, rfl⟩
+
+/-- `changed` is reported iff this is the first background frame of the epoch or some interior
+pixel was replaced (after an FFC-affected frame: always, provided the interior is not empty) -/
+theorem updateBackground_changed_iff (c : DCfg) (d : Det F) (f : Frame) (p : Bool) :
+    (updateBackground c d f p).2.2 = true ↔
+      d.backgroundFrames = 0 ∨
+        ∃ y x, c.inI y x = true ∧ (p || F.lower (f y x) (d.weight y x) (d.bg y x)) = true := by
+  unfold updateBackground
+  simp only []
+  split
+  · rename_i h
+    simp only [true_iff]
+    left
+    omega
+  · rename_i h
+    simp only [List.any_eq_true]
+    constructor
+    · rintro ⟨⟨y, x⟩, hm, hr⟩
+      exact Or.inr ⟨y, x, (mem_interior_iff c y x).1 hm, hr⟩
+    · rintro (h0 | ⟨y, x, hi, hr⟩)
+      · omega
+      · exact ⟨(y, x), (mem_interior_iff c y x).2 hi, hr⟩
+
+/-- when nothing `changed` the interior background is the old one -/
+theorem updateBackground_unchanged (c : DCfg) (d : Det F) (f : Frame) (p : Bool)
+    (h : (updateBackground c d f p).2.2 = false) (y x : Nat) :
+    (updateBackground c d f p).1.bg y x = d.bg y x := by
+  cases hi : c.inI y x
+  · exact updateBackground_bg_outside c d f p y x hi
+  · have hn : ¬ ((updateBackground c d f p).2.2 = true) := by simp [h]
+    rw [updateBackground_changed_iff] at hn
+    have h0 : d.backgroundFrames ≠ 0 := fun h0 => hn (Or.inl h0)
+    have hr : (p || F.lower (f y x) (d.weight y x) (d.bg y x)) = false := by
+      cases hr : (p || F.lower (f y x) (d.weight y x) (d.bg y x))
+      · rfl
+      · exact absurd (Or.inr ⟨y, x, hi, hr⟩) hn
+    unfold updateBackground
+    simp only []
+    split
+    · omega
+    · simp [hr]
 
 /-! ## `detect` = background update (dynamic, non-FFC frame only) ∘ `pixelsChanged` -/
 
@@ -386,5 +439,4 @@ theorem after_invariant (c : DCfg) (P : Det F → Prop)
     | frame f ffc => exact ih _ (hframe d f ffc h)
     | reset => exact ih _ (hreset d h)
 
-end Det
-end TR
+end TR.P15
